@@ -201,7 +201,18 @@ func DebugHistScenario(name string, idx int, args []string) {
 		}
 		sc.Plan = []planStep{st}
 	}
+	if fa := os.Getenv("VERIF_FAILAT"); fa != "" {
+		fmt.Sscan(fa, &sc.FailAt)
+	}
+	if os.Getenv("VERIF_COLD") != "" {
+		sc.Boot = "cold"
+	}
 	r := runHist(sc, args, sc.Drain)
+	if os.Getenv("VERIF_OPLOG") != "" {
+		for i, o := range r.w.Store.OpLog {
+			println("OP", i+1, o)
+		}
+	}
 	for _, l := range r.w.trace {
 		println(l)
 	}
@@ -218,6 +229,7 @@ func init() {
 	debugScenarios["C14"] = c14Scenarios
 	debugScenarios["C05"] = c05NodeScenarios
 	debugScenarios["C11"] = c11Scenarios
+	debugScenarios["C12"] = c12Scenarios
 }
 
 var debugScenarios = map[string]func() []histParams{}
